@@ -114,7 +114,7 @@ class DiskSector:
             if copyLen < self._typeOfDiskImage.sizeOfPayload()
             else self._typeOfDiskImage.sizeOfPayload()
         )
-        self._data[0:copyLen] = value
+        self._data[0:copyLen] = value[0:copyLen]
 
 
 class DiskTrack:
